@@ -200,6 +200,7 @@ type scenario struct {
 	Cycles    int      `json:"cycles"`
 	Shutdown  string   `json:"shutdown"` // "after" (all work done) | "during"
 	Nested    bool     `json:"nested"`
+	Unmatched bool     `json:"all_unmatched,omitempty"` // every request goes to a resource no handler matches
 	Perturb   uint64   `json:"perturb"`
 	Seed      uint64   `json:"seed"`
 }
@@ -234,6 +235,8 @@ type runner struct {
 	unmatched   sync.Map     // c -> true for requests sent to a resource no handler matches
 	resets      [8]int32     // system.reset messages seen per connection generation
 	onConnClose atomic.Value // func(), called at the end of conn.Close
+	sharedTids  []string     // argument slices shared by all publisher goroutines: the service may read them, never write
+	sharedRes   []string
 	lastReq     sync.Map     // group -> *int32: number of the last request whose callback was started
 	noteFn      atomic.Value // func(pt string): scenario-specific action at a Note point
 }
@@ -332,6 +335,9 @@ func (r *runner) submit(g string) {
 	if c%8 == 3 && g != "" {
 		rid = fmt.Sprintf("svc.%s.first", g)
 	}
+	if c%8 == 7 && g != "" {
+		rid = fmt.Sprintf("svc.mw.z%d.%s.x.%d", c%3, g, c)
+	}
 	if c%8 == 5 && g != "" {
 		// a placeholder matches ANY token: ids whose tokens are not plain words match the handler just the same
 		// (a request for such a name would reach the handler), so With/Resource must accept them
@@ -404,7 +410,7 @@ func (r *runner) sendRequest(cn *conn, inCh chan *nats.Msg, g string) (ok bool) 
 	c := r.newCb(g)
 	// handler pattern: item.$c.$g  with Group("${g}") ; group "" is not expressible as a token -> use Parallel resource par.$c
 	var subj string
-	if c%6 == 0 || (r.sc.Seed%4 == 0 && c%2 == 0) {
+	if c%6 == 0 || (r.sc.Seed%4 == 0 && c%2 == 0) || r.sc.Unmatched {
 		// a request for a resource no handler matches: still enqueued (group = resource name) and answered
 		// with system.notFound by a worker; few names, so that requests for the SAME unmatched name form one
 		// group (every fourth scenario sends every second request to one unmatched name)
@@ -515,6 +521,10 @@ func (r *runner) newService(c *conn) *res.Service {
 	sub := res.NewMux("")
 	s.Mount("sub", sub)
 	s.Handle("sub.dflt.$k", res.GetResource(func(q res.GetRequest) { q.NotFound() }))
+	// a pattern ending in the full wildcard, registered on a mounted Mux, whose group tag is not the first placeholder
+	mw := res.NewMux("")
+	mw.Handle("$zone.$shard.>", res.Group("${shard}"), res.GetResource(func(q res.GetRequest) { q.NotFound() }))
+	s.Mount("mw", mw)
 	// a group template that is a single ${tag} naming the FIRST token of the pattern
 	s.Handle("$g.first", res.Group("${g}"), res.GetResource(func(q res.GetRequest) { q.NotFound() }))
 	s.Handle("par.$c", res.Parallel(true), res.GetResource(func(q res.GetRequest) {
@@ -626,6 +636,12 @@ func (r *runner) run() bool {
 	if sc.Kind == "d11" {
 		return r.runD11()
 	}
+	if sc.Kind == "d12" {
+		return r.runD12()
+	}
+	if sc.Kind == "d13" {
+		return r.runD13()
+	}
 	c := &conn{rec: r.rec, r: r}
 	s := r.newService(c)
 	r.s = s
@@ -705,16 +721,20 @@ func (r *runner) run() bool {
 					}
 				})
 			}
-			// a publisher
-			r.safeGo(&wg, "publisher", func() {
-				for k := 0; k < 3; k++ {
-					s.TokenEvent("cid1", nil)
-					s.Reset([]string{"svc.>"}, nil)
-					s.TokenEventWithID("cid1", "tid1", map[string]int{"k": k})
-					s.TokenReset("svc.auth", "tid1")
-					runtime.Gosched()
-				}
-			})
+			// publishers; their slice arguments are shared between the goroutines and contain duplicates and an empty entry:
+			// the service may read them while the call lasts, and must leave them as they are
+			for pb := 0; pb < 2; pb++ {
+				r.safeGo(&wg, "publisher", func() {
+					for k := 0; k < 3; k++ {
+						s.TokenEvent("cid1", nil)
+						s.Reset(r.sharedRes, nil)
+						s.TokenEventWithID("cid1", "tid1", map[string]int{"k": k})
+						s.TokenReset("svc.auth", r.sharedTids...)
+						s.Reset(nil, r.sharedRes)
+						runtime.Gosched()
+					}
+				})
+			}
 			// configuration setters are for a stopped service only (that is what makes the unlocked reads of the
 			// configuration fields safe): on a served service each of them must panic and change nothing
 			if sc.Seed%3 == 0 {
@@ -971,6 +991,22 @@ func (r *runner) run() bool {
 				g = "g1"
 			}
 			c1, cq, cNil := r.newCb(g), r.newCb(g), r.newCb(g)
+			cq2 := r.newCb(g)
+			late := sc.Seed%2 == 1 // a second request is still buffered in the event's channel when the event expires
+			var nreq int32
+			atDone, resumeDone := make(chan struct{}), make(chan struct{})
+			if late {
+				var once int32
+				r.gateFn.Store(func(pt string) {
+					if pt == "query-done" && atomic.CompareAndSwapInt32(&once, 0, 1) {
+						close(atDone)
+						select {
+						case <-resumeDone:
+						case <-time.After(3 * time.Second):
+						}
+					}
+				})
+			}
 			inCb := make(chan struct{})
 			release := make(chan struct{})
 			r.pushSub(g, c1)
@@ -985,7 +1021,11 @@ func (r *runner) run() bool {
 						r.body(cNil, g, false)
 						return
 					}
-					r.body(cq, g, false)
+					if atomic.AddInt32(&nreq, 1) == 1 {
+						r.body(cq, g, false)
+					} else {
+						r.body(cq2, g, false)
+					}
 					q.NotFound()
 				})
 				close(inCb)
@@ -1009,15 +1049,70 @@ func (r *runner) run() bool {
 			c.mu.Unlock()
 			// the callbacks are submitted by the query listener goroutine, in this order
 			r.lsub.mu.Lock()
-			r.lsub.q = append(r.lsub.q, submission{g, cq}, submission{g, cNil})
+			r.lsub.q = append(r.lsub.q, submission{g, cq})
+			if late {
+				r.lsub.q = append(r.lsub.q, submission{g, cq2})
+			}
+			r.lsub.q = append(r.lsub.q, submission{g, cNil})
 			r.lsub.mu.Unlock()
 			if qch != nil {
 				qch <- &nats.Msg{Subject: qsubj, Reply: fmt.Sprintf("Q%d", cq), Data: []byte(`{"query":"a=1"}`)}
 			} else {
 				r.violation("harness-query: no query event subscription was made")
 			}
+			if late && qch != nil {
+				// the listener has seen the expiry and is about to pass on what is still buffered: buffer one more request
+				select {
+				case <-atDone:
+					qch <- &nats.Msg{Subject: qsubj, Reply: fmt.Sprintf("Q%d", cq2), Data: []byte(`{"query":"a=2"}`)}
+				case <-time.After(3 * time.Second):
+					r.violation("harness-query: the query event did not expire within 3 s")
+				}
+				close(resumeDone)
+			}
 			time.Sleep(40 * time.Millisecond) // the request is forwarded and the event (15 ms) expires while c1 is still executing
 			close(release)
+			if late {
+				r.gateFn.Store((func(string))(nil))
+			}
+			r.settle(2 * time.Second)
+			if cyc < sc.Cycles-1 || sc.Shutdown == "after" {
+				ok = r.shutdown(s)
+			}
+		case "dep": // callbacks of DIFFERENT idle groups submitted back to back, each waiting until all of them have started:
+			// with at least as many workers as callbacks none of them may be left waiting in the queue while workers are idle
+			k := sc.Workers
+			if k > 3 {
+				k = 3
+			}
+			var stranded int32
+			for rd := 0; rd < sc.PerProd && atomic.LoadInt32(&stranded) == 0; rd++ {
+				var started int32
+				allStarted := make(chan struct{})
+				var rwg sync.WaitGroup
+				for j := 0; j < k; j++ {
+					g := fmt.Sprintf("dep%d_%d", rd, j)
+					cb := r.newCb(g)
+					r.pushSub(g, cb)
+					rwg.Add(1)
+					s.WithGroup(g, func(*res.Service) {
+						defer rwg.Done()
+						r.rec.add("run", g, cb)
+						if atomic.AddInt32(&started, 1) == int32(k) {
+							close(allStarted)
+						}
+						select {
+						case <-allStarted:
+						case <-time.After(3 * time.Second):
+							if atomic.CompareAndSwapInt32(&stranded, 0, 1) {
+								r.violation(fmt.Sprintf("stranded: %d callbacks of %d different idle groups were accepted back to back by a service with %d workers, but only %d of them were started within 3 s: an accepted callback waits in the queue while workers are idle", k, k, sc.Workers, atomic.LoadInt32(&started)))
+							}
+						}
+						r.rec.add("ret", g, cb)
+					})
+				}
+				rwg.Wait()
+			}
 			r.settle(2 * time.Second)
 			if cyc < sc.Cycles-1 || sc.Shutdown == "after" {
 				ok = r.shutdown(s)
@@ -1434,6 +1529,113 @@ func (r *runner) runD11() bool {
 	return true
 }
 
+// runD12: a start that fails before the service is flagged started (an event listener on a pattern without handler),
+// then Shutdown from another goroutine: Serve must return the error, and Shutdown must return within bounded time
+// (refused as not started) however the failed start left the service. Runtime checks only.
+func (r *runner) runD12() bool {
+	c1 := &conn{rec: r.rec, r: r, gen: 0}
+	s := r.newService(c1)
+	r.s = s
+	s.AddListener("nohandler.$id", func(*res.Event) {})
+	served := make(chan error, 1)
+	go func() { served <- s.Serve(c1) }()
+	select {
+	case err := <-served:
+		if err == nil {
+			r.violation("serve-nil: Serve returned nil although an event listener has no handler")
+		}
+	case <-time.After(3 * time.Second):
+		r.violation("serve-hang: Serve neither failed nor served within 3 s although an event listener has no handler")
+	}
+	n := 1 + int(r.sc.Seed%2)
+	done := make(chan struct{}, n)
+	for i := 0; i < n; i++ {
+		go func() {
+			defer func() {
+				if v := recover(); v != nil {
+					r.violation(fmt.Sprintf("panic: Shutdown after a failed start panicked: %v", v))
+				}
+				done <- struct{}{}
+			}()
+			s.Shutdown()
+		}()
+	}
+	for i := 0; i < n; i++ {
+		select {
+		case <-done:
+		case <-time.After(5 * time.Second):
+			r.violation("shutdown-hang: Shutdown, called after a start that had failed, did not return within 5s")
+			return false
+		}
+	}
+	return true
+}
+
+// runD13: a callback that takes long (6 s) is executing when Shutdown is called: Shutdown returns only when it has
+// finished, however long that takes; the service can be served again afterwards. Runtime checks only.
+func (r *runner) runD13() bool {
+	c1 := &conn{rec: r.rec, r: r, gen: 0}
+	s := r.newService(c1)
+	r.s = s
+	served := make(chan error, 1)
+	go func() { served <- s.Serve(c1) }()
+	for i := 0; i < 50000 && atomic.LoadInt32(&r.resets[0]) == 0; i++ {
+		time.Sleep(100 * time.Microsecond)
+	}
+	g := "g1"
+	if r.sc.Seed%2 == 1 {
+		g = "" // Parallel resource
+	}
+	cb := r.newCb(g)
+	rid := fmt.Sprintf("svc.item.%d.%s", cb, g)
+	if g == "" {
+		rid = fmt.Sprintf("svc.par.%d", cb)
+	}
+	inCb, release := make(chan struct{}), make(chan struct{})
+	var returned int32
+	r.pushSub(g, cb)
+	if err := s.With(rid, func(res.Resource) {
+		close(inCb)
+		<-release
+		atomic.StoreInt32(&returned, 1)
+	}); err != nil {
+		r.violation("with-error: " + err.Error())
+		return r.shutdown(s)
+	}
+	select {
+	case <-inCb:
+	case <-time.After(3 * time.Second):
+		r.violation("callback-not-started: a callback submitted to the served service was not started within 3s")
+		close(release)
+		return r.shutdown(s)
+	}
+	shut := make(chan error, 1)
+	go func() { shut <- s.Shutdown() }()
+	select {
+	case <-shut:
+		if atomic.LoadInt32(&returned) == 0 {
+			r.violation("drain: Shutdown returned while a callback that had started was still executing (it had been executing for less than 6 s)")
+		}
+		close(release)
+		return true
+	case <-time.After(6 * time.Second):
+	}
+	close(release)
+	select {
+	case <-shut:
+	case <-time.After(5 * time.Second):
+		r.violation("shutdown-hang: Shutdown did not return within 5s after the last callback had returned")
+		return false
+	}
+	select {
+	case <-served:
+	case <-time.After(5 * time.Second):
+		r.violation("serve-hang: Serve did not return after Shutdown")
+		return false
+	}
+	return true
+}
+
 // runRestartLoop: many stop/start cycles in which Serve is called again as soon as Shutdown has returned (the service
 // is stopped then), without waiting for the previous Serve call to return. The new Serve must be accepted and must
 // not panic, the previous Serve call must return although a new cycle is being served, and each cycle publishes its
@@ -1551,6 +1753,8 @@ type conv struct {
 	retired  map[uint64]bool
 	running  map[uint64]int
 	prod     map[uint64]int // goid -> current producer number
+	prodSub  map[uint64]submission
+	widBad   bool
 	nextP    int
 	wq       []int
 	nextW    int
@@ -1632,6 +1836,17 @@ func (c *conv) popSub(g uint64) (submission, bool) {
 	return submission{}, false
 }
 
+// checkWid: the queue key under which the service files a callback must be the group of the resource (its name, or
+// what the Group option maps it to; "" for a Parallel resource), whichever way the callback was submitted.
+func (c *conv) checkWid(e entry) {
+	sub, ok := c.prodSub[e.gid]
+	if !ok || c.widBad || e.s == sub.g {
+		return
+	}
+	c.widBad = true
+	c.r.violation(fmt.Sprintf("wrong-group: callback %d belongs to group %q, but the service filed it under the queue key %q", sub.c, sub.g, e.s))
+}
+
 func sectRes(kind string, w int) string {
 	switch kind {
 	case "take":
@@ -1668,6 +1883,7 @@ func (c *conv) convert(log []entry) error {
 			}
 			c.nextP++
 			c.prod[e.gid] = c.nextP
+			c.prodSub[e.gid] = sub
 			t := fmt.Sprintf("LCheck %d%%N %d%%N %d%%N true", c.nextP, c.gnum(sub.g), sub.c)
 			if c.svc != "started" && c.insertBeforeLast("shutcas", "check", t) {
 				// the load preceded Shutdown's CAS
@@ -1686,13 +1902,16 @@ func (c *conv) convert(log []entry) error {
 				c.emit("check", t)
 			}
 		case "enq-closing":
+			c.checkWid(e)
 			c.emit("enq", fmt.Sprintf("LEnq %d%%N EClosing", c.prod[e.gid]))
 			delete(c.prod, e.gid)
 		case "enq-new":
+			c.checkWid(e)
 			c.emit("enq", fmt.Sprintf("LEnq %d%%N ENew", c.prod[e.gid]))
 			c.wq = append(c.wq, c.nextW)
 			c.nextW++
 		case "enq-append":
+			c.checkWid(e)
 			c.emit("enq", fmt.Sprintf("LEnq %d%%N EAppend", c.prod[e.gid]))
 			delete(c.prod, e.gid)
 		case "gate:runwith-before-signal":
@@ -1802,7 +2021,12 @@ func runScenario(sc scenario) (Case, []ImplViolation, bool) {
 			r.scratch[g] = new(int)
 		}
 	}
+	r.sharedTids = []string{"tid1", "tid2", "tid2", "", "tid4", "tid1"}
+	r.sharedRes = []string{"svc.>", "svc.a", "svc.a", "svc.>"}
 	alive := r.run()
+	if fmt.Sprint(r.sharedTids) != fmt.Sprint([]string{"tid1", "tid2", "tid2", "", "tid4", "tid1"}) || fmt.Sprint(r.sharedRes) != fmt.Sprint([]string{"svc.>", "svc.a", "svc.a", "svc.>"}) {
+		r.violation(fmt.Sprintf("argument-mutated: a slice passed to TokenReset/Reset was modified by the service: %q %q", r.sharedTids, r.sharedRes))
+	}
 	verifhook.SetNote(nil)
 	verifhook.SetGate(nil)
 	r.rec.mu.Lock()
@@ -1822,9 +2046,9 @@ func runScenario(sc scenario) (Case, []ImplViolation, bool) {
 		case <-time.After(5 * time.Second):
 		}
 	}
-	cv := &conv{r: r, widx: map[uint64]int{}, retired: map[uint64]bool{}, running: map[uint64]int{}, prod: map[uint64]int{},
+	cv := &conv{r: r, widx: map[uint64]int{}, retired: map[uint64]bool{}, running: map[uint64]int{}, prod: map[uint64]int{}, prodSub: map[uint64]submission{},
 		pub: map[uint64]int{}, subIdx: map[uint64]int{}, groupNum: map[string]int{}, svc: "stopped"}
-	if sc.Kind != "d9" && sc.Kind != "d11" && sc.Kind != "restartloop" {
+	if sc.Kind != "d9" && sc.Kind != "d11" && sc.Kind != "d12" && sc.Kind != "d13" && sc.Kind != "restartloop" {
 		if err := cv.convert(log); err != nil {
 			r.violation("harness-conversion: " + err.Error())
 		}
@@ -1913,6 +2137,9 @@ func main() {
 		for i := 0; i < ns+1; i++ {
 			scs = append(scs, scenario{Kind: "random", Workers: []int{1, 2, 8}[rng.Intn(3)], InCh: []int{2, 1024}[i%2], Producers: 1, PerProd: 2,
 				Groups: groupSets[rng.Intn(3)], Requests: 40, Cycles: 1 + rng.Intn(2), Shutdown: "during", Seed: rng.Next() % 1000000 / 4 * 4})
+			// ... and nothing but such requests, so that the listener's last actions before the shutdown are of that kind
+			scs = append(scs, scenario{Kind: "random", Workers: []int{1, 2, 8}[rng.Intn(3)], InCh: []int{2, 1024}[i%2], Producers: 0, PerProd: 0, Unmatched: true,
+				Groups: groupSets[rng.Intn(3)], Requests: 200, Cycles: 2, Shutdown: "during", Seed: rng.Next() % 1000000 / 4 * 4})
 		}
 		nb := 3
 		if o.Tier == "thorough" {
@@ -1945,6 +2172,18 @@ func main() {
 			scs = append(scs, scenario{Kind: "d11", Workers: []int{1, 2, 32}[rng.Intn(3)], InCh: 1024, Groups: []string{"g1"},
 				Cycles: 2, Shutdown: "after", Seed: rng.Next() % 1000000})
 		}
+		for i := 0; i < nd; i++ {
+			scs = append(scs, scenario{Kind: "d12", Workers: []int{1, 2, 32}[rng.Intn(3)], InCh: 1024, Groups: []string{"g1"},
+				Cycles: 1, Shutdown: "after", Seed: rng.Next()%1000000/2*2 + uint64(i%2)})
+		}
+		for i := 0; i < 1+nd/30; i++ {
+			scs = append(scs, scenario{Kind: "d13", Workers: []int{1, 2, 32}[rng.Intn(3)], InCh: 1024, Groups: []string{"g1"},
+				Cycles: 1, Shutdown: "after", Seed: rng.Next()%1000000/2*2 + uint64(i%2)})
+		}
+		for i := 0; i < nb; i++ {
+			scs = append(scs, scenario{Kind: "dep", Workers: []int{2, 3, 32}[i%3], InCh: 1024, PerProd: 40, Groups: []string{"g1"},
+				Cycles: 1, Shutdown: []string{"none", "after"}[i%2], Seed: rng.Next() % 1000000})
+		}
 		for i := 0; i < nb; i++ {
 			// one sender delivering a long run of requests of all kinds for ONE group back to back
 			scs = append(scs, scenario{Kind: "reqorder", Workers: []int{1, 2, 4}[rng.Intn(3)], InCh: 1024, Producers: 0,
@@ -1958,7 +2197,7 @@ func main() {
 		for i := 0; i < nd; i++ {
 			for _, k := range []string{"d1", "d2", "d3", "d4", "d5", "d6", "d7", "d10"} {
 				sc := scenario{Kind: k, Workers: []int{1, 2, 32}[rng.Intn(3)], InCh: 1024, Groups: groupSets[rng.Intn(3)],
-					Cycles: 1 + rng.Intn(2), Shutdown: "after", Seed: rng.Next() % 1000000}
+					Cycles: 1 + rng.Intn(2), Shutdown: "after", Seed: rng.Next()%1000000/2*2 + uint64(i%2)} // variants by seed parity: both
 				scs = append(scs, sc)
 			}
 		}
@@ -2003,7 +2242,7 @@ func main() {
 	}
 	hdr := "From stdpp Require Import gmap.\nFrom Coq Require Import NArith String.\nFrom GoRes Require Import Run.Run_" + runMod + ".\nLocal Open Scope string_scope."
 	Emit(o, *prop, hdr, "scase",
-		"real res.Service runs (worker counts 1/2/3/8/32, in-channel 1/2/1024, 1-6 producer goroutines using WithGroup incl. nested submissions from callbacks, requests through the in-channel incl. Parallel resources, publishers, 1-3 serve/shutdown cycles, shutdown after/during/none, seeded schedule perturbation at hook points) + directed schedules d1-d10 (enqueue after close-nil, publish after shutdown, append before re-lock, parked Signal, producers during parked close, ResetAll during Serve start-up, query expiry during Shutdown with a same-group callback in flight, an in-flight callback emitting an event and a query event after the connection was closed followed by a serve cycle on a new connection; d9: first Serve refused its subscriptions while a With callback from the started window is in flight or the first Close is slow, Serve retried in a loop on a new connection - runtime checks only; d10: a query request and the expiry of a query event while a callback of the resource's group is executing; restartloop (C03 only): 1500 stop/start cycles with Serve called as soon as Shutdown has returned - runtime checks only; d11: Serve called in the tail of Shutdown, after the service was flagged stopped and before Shutdown returned - runtime checks only; reqorder: one sender delivering 400 get/access/call requests of one group back to back, each to the channel of the subscription its subject matches, with the runtime check that their callbacks start in delivery order) + simultaneous submissions to an idle group behind a spin barrier (burst) + high-contention stress runs (thousands of tiny callbacks on 1-2 groups); every serve cycle gets a fresh connection object and anything published on an earlier one is a violation; one case = one run's label trace; non-trivial = a callback was appended to a live work item and >= 2 workers took work, or a directed schedule; distinct by trace",
+		"real res.Service runs (worker counts 1/2/3/8/32, in-channel 1/2/1024, 1-6 producer goroutines using WithGroup incl. nested submissions from callbacks, requests through the in-channel incl. Parallel resources, publishers, 1-3 serve/shutdown cycles, shutdown after/during/none, seeded schedule perturbation at hook points) + directed schedules d1-d10 (enqueue after close-nil, publish after shutdown, append before re-lock, parked Signal, producers during parked close, ResetAll during Serve start-up, query expiry during Shutdown with a same-group callback in flight, an in-flight callback emitting an event and a query event after the connection was closed followed by a serve cycle on a new connection; d9: first Serve refused its subscriptions while a With callback from the started window is in flight or the first Close is slow, Serve retried in a loop on a new connection - runtime checks only; d10: a query request and the expiry of a query event while a callback of the resource's group is executing; restartloop (C03 only): 1500 stop/start cycles with Serve called as soon as Shutdown has returned - runtime checks only; d11: Serve called in the tail of Shutdown, after the service was flagged stopped and before Shutdown returned - runtime checks only; d12: Shutdown after a start that failed before the service was flagged started; d13: Shutdown while a callback executes for 6 s; dep: callbacks of different idle groups accepted back to back that wait for each other (no accepted callback may wait in the queue while workers are idle); reqorder: one sender delivering 400 get/access/call requests of one group back to back, each to the channel of the subscription its subject matches, with the runtime check that their callbacks start in delivery order) + simultaneous submissions to an idle group behind a spin barrier (burst) + high-contention stress runs (thousands of tiny callbacks on 1-2 groups); every serve cycle gets a fresh connection object and anything published on an earlier one is a violation; one case = one run's label trace; non-trivial = a callback was appended to a live work item and >= 2 workers took work, or a directed schedule; distinct by trace",
 		cases, dist, nil, impl, 40)
 	if len(impl) > 0 {
 		fmt.Fprintln(os.Stderr, "impl violations:", len(impl))
